@@ -302,7 +302,7 @@ class Sampler:
         herald_modes = list(heralds.keys())
         herald_items = list(heralds.items())
         # Set detector seed before sampling
-        self.detector._set_random_seed(seed)
+        self.detector._set_random_seed(process_random_seed(seed))
         # Process output states
         for state in samples:
             state = self.detector._get_output(state)  # noqa: PLW2901
